@@ -60,7 +60,7 @@ pub fn all() -> Vec<PropDef> {
         },
         PropDef {
             id: "C12",
-            rule: "operation sequences (0..60 ops) over small alphabets for Interner<String>, Interner<u8>, Interner<(u8,bool)> and for PortableRegistryBuilder (pool of 12 types, self-referential types via next_type_id, generated types); oracle = duplicate-free Vec with linear search compared after every step; non-trivial = a duplicate insertion after at least one other insertion, distinct by op list",
+            rule: "operation sequences (0..60 ops) over small alphabets for Interner<String>, Interner<u8>, Interner<(u8,bool)> and for PortableRegistryBuilder (pool of 12 types, self-referential types via next_type_id, generated types); tables of up to 700 distinct values with probes (sub-check large_tables); both public constructors; oracle = duplicate-free Vec with linear search compared after every step; non-trivial = a duplicate insertion after at least one other insertion, distinct by op list",
             assumptions: &[],
             subs: || {
                 let mut v = crate::p_list::c12_subs();
